@@ -471,6 +471,12 @@ pub fn elem_receivers() -> BTreeMap<&'static str, ElemDesc> {
         attrs_field: Some(AttrsField::With(3300)),
         ..elem("FR3", Field, vec!["a"], vec![f("p", opt(pm(3301)))])
     });
+    add(ElemDesc { forward: Forward::Only(vec![]), attrs_field: Some(AttrsField::Plain), ..elem("FR4", Field, vec![], vec![]) });
+    add(ElemDesc {
+        forward: Forward::Only(vec![]),
+        attrs_field: Some(AttrsField::Plain),
+        ..elem("DI7", DeriveInput, vec!["a"], vec![f("p", opt(pm(4401)))])
+    });
     add(ElemDesc {
         has_ident: true,
         variant_fields: Some(BodyLeaf::Recv("FR1")),
